@@ -707,7 +707,22 @@ def fkey_of(f):
     return repr(f)[:60]
 
 
+CHAIN_MUT = "chain-of-mutable-iterators"
+
+
+def _mut_refs(v):
+    if isinstance(v, VMutRef):
+        return [v]
+    if isinstance(v, VRec) and v.ty == CHAIN_MUT:
+        return _mut_refs(v.f["0"]) + _mut_refs(v.f["1"])
+    return None
+
+
 def h_chain(I, st, fr, e, c, a):
+    ra, rb = _mut_refs(a[0]), _mut_refs(a[1])
+    if ra is not None and rb is not None and all(isinstance(deref(I, st, r), VSeq) for r in ra + rb):
+        # iter_mut().chain(iter_mut()): iteration by mutable reference over several sequences in turn
+        return [(st, VRec(CHAIN_MUT, {"0": a[0], "1": a[1]}), None)]
     x = as_list(I, st, fr, e, a[0])
     y = as_list(I, st, fr, e, a[1])
     return [(st, VSeq(mk_concat([x.t, y.t])), None)]
@@ -1381,6 +1396,25 @@ def summarise_for(I, st, fr, e, itv, pat, body, roots):
       (a) in-place element update: `for x in &mut seq { ...writes through x only... }`
       (b) append-only loops: every modified sequence place P ends one iteration as concat(P, X)
           with X independent of the prefix."""
+    if isinstance(itv, VRec) and itv.ty == CHAIN_MUT:
+        # the same body applied, in place, to each of the chained sequences in turn
+        states = [st]
+        for ref in _mut_refs(itv):
+            nxt = []
+            for s1 in states:
+                r = summarise_for(I, s1, fr, e, ref, pat, body, roots)
+                if r is None or any(c is not None for (_, _, c) in r):
+                    # outside the in-place idiom: what the body wrote is unknown for every chained sequence
+                    for ref2 in _mut_refs(itv):
+                        pl, cur2 = place_of(I, st, ref2)
+                        if isinstance(cur2, VSeq):
+                            lf = leaf(("loopvar", (fr.fn["path"] if fr.fn else "?", "loop-chain", "iter_mut"), str(pl[1])))
+                            st.add_eq(t_len(lf) - t_len(cur2.t))
+                            I.write_place(st, pl, VSeq(lf))
+                    return [(st, UNIT, None)]
+                nxt.extend(s2 for (s2, _, _) in r)
+            states = nxt
+        return [(s1, UNIT, None) for s1 in states]
     if isinstance(itv, VMutRef):
         place, cur = place_of(I, st, itv)
         if isinstance(cur, VSeq):
